@@ -82,7 +82,62 @@ def _record(item):
                 K[l][r] = -1 if v2 is None else int(v2)
     case["K"] = K
     case["C"] = C
+    case["sparse"] = False
+    case["tab"] = []
     return case, {"points": P.tolist(), "detector": det, "t1": t1, "t2": t2, "error": val if out != "returned" else None}
+
+
+def _smape_gate(pt, t1):
+    """endpoint-line SMAPE of the slice, computed independently (math.fsum); None when within noise of t1."""
+    import math
+    x, y = pt[:, 0], pt[:, 1]
+    m = (y[0] - y[-1]) / (x[0] - x[-1])
+    h = x * m + (y[0] - m * x[0])
+    v = math.fsum(2.0 * np.abs(h - y) / (np.abs(y) + np.abs(h) + 1e-16)) / len(pt)
+    if numeric.close(v, t1, rel=1e-9, ab=1e-15):
+        return None
+    return bool(v >= t1)
+
+
+def _record_long(item):
+    """long curves: sparse tables over the slices the decomposition visits; the gate is the SMAPE definition."""
+    cid, seed, n, det, t1, t2 = item
+    import random
+    rng = random.Random(seed)
+    x = np.arange(1, n + 1, dtype=float)
+    kind = seed % 3
+    if kind == 0:      # a straight line with a two-point spike near the end: SMAPE just below / above t1 matters
+        y = 1000.0 - 0.2 * x
+        y[-3] += 30.0 * rng.random(); y[-2] -= 20.0 * rng.random()
+    elif kind == 1:
+        y = 1000.0 / np.sqrt(x)
+    else:
+        y = 50.0 + 40.0 * np.exp(-x / (n / 6.0)) + np.array([0.01 * rng.random() for _ in range(n)])
+    P = np.column_stack([x, y])
+    mod = _mod(det)
+    out, val, counts = monitor.call(mod.multi_knee, (P, t1, t2), budget=400 * n + 200000, wall=120)
+    case = {"id": cid, "n": n, "t2": t2, "outcome": out, "pops": counts.get("multi_knee", 0), "exempt_interior": det == "menger",
+            "result": [int(v) for v in np.asarray(val).tolist()] if out == "returned" else [], "K": [], "C": [], "sparse": True, "tab": []}
+    todo = [(0, n)]
+    tab = []
+    while todo and len(tab) < 400:
+        l, r = todo.pop()
+        if r - l <= t2:
+            continue
+        g = _smape_gate(P[l:r], t1)
+        if g is None:
+            tab.append([l, r, -2, True])
+            continue
+        if not g:
+            tab.append([l, r, -1, False])
+            continue
+        o2, v2, _ = monitor.call(mod.knee, (P[l:r],), budget=400 * n + 200000, wall=120)
+        k = -2 if o2 != "returned" else (-1 if v2 is None else int(v2))
+        tab.append([l, r, k, True])
+        if k >= 0:
+            todo += [(l, l + k + 1), (l + k + 1, r)]
+    case["tab"] = tab
+    return case, {"long": [cid, seed, n, det, t1, t2], "detector": det, "t1": t1, "t2": t2, "error": val if out != "returned" else None}
 
 
 def _harvest_t1(P, rng):
@@ -115,6 +170,7 @@ def inputs(ctx):
 STATIC = {"id": "static", "n": 6, "t2": 3, "outcome": "returned", "pops": 3, "exempt_interior": False,
           "result": [2],
           "K": [[-2] * 7 for _ in range(7)], "C": [[False] * 7 for _ in range(7)]}
+STATIC["sparse"] = False; STATIC["tab"] = []
 STATIC["K"][0][6] = 2; STATIC["C"][0][6] = True       # whole curve: knee at 2 -> children [0,3) (too small) and [3,6) (too small)
 
 
@@ -157,13 +213,22 @@ def run(ctx):
     ctx.sample({"binding": "G", "behaviour": max(beh, key=lambda b: len(b["calls"]) if b["n"] <= 6 else 0)})
     items = inputs(ctx)
     rec = par.pmap(_record, items)
+    longs = []
+    for k, n in enumerate([2051, 2049, 4100] if ctx.quick else [2051, 2049, 4100, 3000, 9001, 5000]):
+        for det in ("curvature", "dfdt", "menger", "kneedle"):
+            longs.append(("L%d-%s" % (k, det), ctx.seed * 31 + k, n, det, ctx.rng.choice([0.001, 0.0005, 0.01]), 6))
+    rec += par.pmap(_record_long, longs, chunksize=1)
     cases = [c for c, _ in rec]
     meta = {c["id"]: m for c, m in rec}
     rej = ctx.trace("Trace_MultiKnee", cases, selftest=_selftests(), chunk=250)
     for c in cases:
-        ctx.count(("T", meta[c["id"]]["points"], meta[c["id"]]["detector"], meta[c["id"]]["t1"], c["t2"]), len(c["result"]) >= 2)
+        ctx.count(("T", meta[c["id"]].get("points", meta[c["id"]].get("long")), meta[c["id"]]["detector"], meta[c["id"]]["t1"], c["t2"]), len(c["result"]) >= 2)
     for cid, vs in rej.items():
         m = meta[cid]
+        if "long" in m:
+            ctx.violation(vs[0][0], {"kind": "Tlong", "long": m["long"]}, {"verdict": [str(v)[:300] for v in vs[0]], "error": m["error"]},
+                          match="%s:%s" % (vs[0][0], m["detector"]))
+            continue
         ctx.violation(vs[0][0], {"kind": "T", "points": m["points"], "detector": m["detector"], "t1": m["t1"], "t2": m["t2"]},
                       {"verdict": vs[0], "error": m["error"]}, match="%s:%s" % (vs[0][0], m["detector"]))
     sm = next(c for c in cases if len(c["result"]) >= 2 and c["n"] <= 8)
@@ -176,6 +241,11 @@ def replay(ctx, obj):
         for clause, detail in _replay_line(c["behaviour"]):
             if not clause.startswith("DRIFT:"):
                 ctx.violation(clause, c, detail)
+    elif c["kind"] == "Tlong":
+        case, m = _record_long(tuple(c["long"]))
+        rej = ctx.trace("Trace_MultiKnee", [case])
+        for cid, vs in rej.items():
+            ctx.violation(vs[0][0], c, {"verdict": [str(v)[:300] for v in vs[0]]})
     else:
         case, m = _record(("replay", c["points"], c["detector"], c["t1"], c["t2"]))
         rej = ctx.trace("Trace_MultiKnee", [case])
